@@ -747,12 +747,12 @@ inline void runC14(Ctx &c)
             Rng r = c.beginCase(cl.name, idx);
             GenOpts go;
             // first/last placement patterns get extra weight (first-/last-block asymmetry)
-            static const int pats[] = {7, 8, 9, 10, 2, 3, 0, 1, 4, 5, 6, 11, 12};
-            go.dur_pattern = pats[idx % 13];
+            static const int pats[] = {7, 8, 9, 10, 2, 3, 0, 1, 4, 5, 6, 11, 12, 13, 14};
+            go.dur_pattern = pats[idx % 15];
             int pat = 0, dc = 0;
             Problem p = genProblem(r, cl.order, cl.dim, cl.N, go, &pat, &dc);
             const int nc = p.ncoef(), sO = p.s();
-            int relation = (int)((idx / 13) % 5);
+            int relation = (int)((idx / 15) % 5);
             c.dump = [&]() { return JObj().i("relation", relation).str("dur_pattern", kDurPatternNames[pat]).raw("problem", dumpProblem(p)).done(); };
             if (problemNontrivial(p))
                 c.nontrivial(mix64(hashProblem(p), relation));
@@ -778,7 +778,8 @@ inline void runC14(Ctx &c)
             case 0: // start-time shift
             {
                 Problem q = p;
-                double shift = r.coin() ? std::ldexp(1.0, r.range(-3, 12)) * (r.coin() ? 1 : -1) : r.uni(-1e3, 1e3);
+                // "every start time": moderate shifts, and astronomically large ones (nothing but the knot times may depend on it)
+                double shift = r.coin(0.25) ? r.pick(std::vector<double>{1e9, -1e9, 1e12, -3e11, -1e12}) : (r.coin() ? std::ldexp(1.0, r.range(-3, 12)) * (r.coin() ? 1 : -1) : r.uni(-1e3, 1e3));
                 q.t0 = p.t0 + shift;
                 auto sq = splineForRelation(c, r, *s, q);
                 c.check("C14.shift.coeffs_unchanged", coeffError(q, sq->coeffs(), Cld, 1e-3), 1e-12, gkey(p, "shift"));
@@ -1100,12 +1101,19 @@ inline void runC10(Ctx &c)
                         // partly unchanged inputs (as in an optimisation loop): same durations, same waypoints, the very
                         // same problem again, or the same segment count with everything new
                         Problem old = cur;
-                        int k = r.range(0, 3);
+                        int k = r.range(0, 4);
                         cur = genProblem(r, od.first, od.second, old.N);
                         if (k == 0)
                         {
                             cur.T = old.T;
                             cur.t0 = old.t0;
+                        }
+                        else if (k == 4)
+                        {
+                            cur.T = old.T;
+                            double eps = std::pow(10.0, -(double)r.range(7, 12));
+                            for (auto &t : cur.T)
+                                t *= 1.0 + eps * r.uni(-1, 1);
                         }
                         else if (k == 1)
                         {
